@@ -618,12 +618,22 @@ pub fn trace_line(c: &Case) -> String {
     r.unwrap_or_else(|e| format!("trace {} target=- bodyend=- mutated=0 rewritten=0 final=- steps=- result={}", c.line(), e))
 }
 
+/// `--graph`: traced runs also record the live object graph (cells, edges, reference counts) after every opcode
+pub static GRAPH_ON: std::sync::atomic::AtomicBool = std::sync::atomic::AtomicBool::new(false);
+
 fn trace_line_inner(c: &Case) -> String {
     let mut g = c.generator();
     c.warm_up(&mut g);
+    let graph_on = GRAPH_ON.load(std::sync::atomic::Ordering::Relaxed);
+    if graph_on {
+        verif::graph_start();
+    }
     verif::trace_start();
     let res = c.run_on(&mut g);
     let recs = verif::trace_take();
+    verif::graph_stop();
+    let mut graph_digs: Vec<String> = Vec::new();
+    let mut graph_final = String::from("-");
     let mut steps = String::new();
     let mut target = String::from("-");
     let mut bodyend = String::from("-");
@@ -648,6 +658,9 @@ fn trace_line_inner(c: &Case) -> String {
                     Some(a) => hex(a),
                 };
                 let _ = write!(steps, "{:02x}/{}/{}", op, a, snap(pre));
+                if let Some(t) = &pre.graph {
+                    graph_digs.push(format!("{:016x}", fnv(t.bytes())));
+                }
                 nsteps += 1;
                 let alen = arg.as_ref().map(|a| a.len()).unwrap_or(0);
                 let empty_at = |min: usize| if alen <= min { 1 } else { 0 };
@@ -665,6 +678,10 @@ fn trace_line_inner(c: &Case) -> String {
             }
             Rec::BodyEnd { pre } => bodyend = format!("{}@{}", nsteps, snap(pre)),
             Rec::Final { post } => {
+                if let Some(t) = &post.graph {
+                    graph_digs.push(format!("{:016x}", fnv(t.bytes())));
+                    graph_final = t.clone();
+                }
                 fin = format!(
                     "{}/{}/{}",
                     snap(post),
@@ -693,9 +710,15 @@ fn trace_line_inner(c: &Case) -> String {
         Ok(out) => format!("ok:{}", hex(&out)),
         Err(e) => e,
     };
+    let graph = if graph_on {
+        format!(" graph={} graphfinal={}", if graph_digs.is_empty() { "-".to_string() } else { graph_digs.join(",") }, graph_final)
+    } else {
+        String::new()
+    };
     format!(
-        "trace {} target={} bodyend={} mutated={} rewritten={} nv={} nm={} final={} steps={} result={}",
+        "trace {}{} target={} bodyend={} mutated={} rewritten={} nv={} nm={} final={} steps={} result={}",
         c.line(),
+        graph,
         target,
         bodyend,
         mutated,
@@ -810,6 +833,21 @@ fn cmd_gen(args: &[String]) {
 }
 
 fn cmd_trace(args: &[String]) {
+    if args.iter().any(|a| a == "--graph") {
+        GRAPH_ON.store(true, std::sync::atomic::Ordering::Relaxed);
+    }
+    if args.iter().any(|a| a == "--stdin") {
+        // one case line per input line (directed families built by check.py)
+        let stdin = std::io::stdin();
+        let mut line = String::new();
+        while stdin.read_line(&mut line).unwrap_or(0) > 0 {
+            if let Some(c) = Case::parse(line.trim()) {
+                println!("{}", trace_line(&c));
+            }
+            line.clear();
+        }
+        return;
+    }
     let n: u64 = arg_val(args, "--cases", "100").parse().unwrap();
     let seed: u64 = arg_val(args, "--seed", "1").parse().unwrap();
     let profile = arg_val(args, "--profile", "default");
@@ -828,6 +866,9 @@ fn cmd_case(args: &[String]) {
         eprintln!("cannot parse case");
         std::process::exit(2);
     };
+    if args.iter().any(|a| a == "--graph") {
+        GRAPH_ON.store(true, std::sync::atomic::Ordering::Relaxed);
+    }
     if args.iter().any(|a| a == "--trace") {
         println!("{}", trace_line(&c));
     } else {
